@@ -99,7 +99,9 @@ def check_plan_validation(ctx, rule="R6-plan-validation"):
     except Unknown as ex:
         ctx.unknown(rule, fkey, str(ex), where); return
     loops = [sm for k, sm in R.I.loop_summaries.items() if isinstance(k, int) and not sm.get("is_while")]
-    S = next((sm for sm in loops if "D_norm" in sm.get("appends_by_name", {})), None)
+    # the per-bin validation: the loop (or comprehension) whose guards speak about the scheduler's K and D of the bin it visits
+    def speaks(sm): return any("sch.K" in repr(getattr(c_, "eq", None) or getattr(c_, "lt", None) or "") or "sch.D" in repr(getattr(c_, "any_of", None) or getattr(c_, "eq", None) or "") for c_, _ in sm.get("assumed", []))
+    S = next((sm for sm in loops if "D_norm" in sm.get("appends_by_name", {})), None) or next((sm for sm in loops if speaks(sm)), None)
     if S is None:
         ctx.unknown(rule, fkey, "validation loop over D not found", where); return
     assumed = S["assumed"]
